@@ -508,6 +508,21 @@ Lemma num_mutual_meaning : forall s h nbrs,
   Z.of_nat (length (filter (fun q => match lookup (h, q) (conns s) with Some _ => true | None => false end) nbrs)).
 Proof. reflexivity. Qed.
 
+
+(* AddPending is accepted exactly when there is room, the peer is new and the mutual limit holds *)
+Lemma add_pending_accept_iff : forall c s p h nbrs,
+  snd (add_pending c s p h nbrs) = AddOk <->
+  count h (conns s) <> c_max c /\ connected s h p = false /\ num_mutual s h nbrs <= c_mutual c.
+Proof.
+  intros c s p h nbrs. split.
+  - intros Ho. destruct (add_pending_spec c s p h nbrs) as [(_ & Hc & L & M & _)|[Hn _]]; [|contradiction].
+    unfold connected. rewrite L. repeat split; assumption.
+  - intros (Hc & L & M). unfold add_pending, connected in *.
+    destruct (Z.eqb_spec (count h (conns s)) (c_max c)) as [E|E]; [contradiction|].
+    destruct (lookup (h, p) (conns s)) as [[|cn]|]; try discriminate.
+    destruct (Z.ltb_spec (c_mutual c) (num_mutual s h nbrs)) as [M'|M']; [lia | reflexivity].
+Qed.
+
 (* ---------- replaced connections ---------- *)
 Lemma delete_active_spec : forall s cn p h,
   (lookup (h, p) (conns s) = Some (Active cn) /\ conns (delete_active s cn p h) = del (h, p) (conns s))
@@ -904,6 +919,42 @@ Proof.
     - rewrite E. exact L.
     - rewrite Hk' in Ho. discriminate. }
   unfold blacklisted. rewrite (G ops init eq_refl Hall). reflexivity.
+Qed.
+
+
+(* conversely: whoever is blacklisted was blacklisted by an accepted blacklisting that is still
+   within its duration and has not been cleared since *)
+Lemma bl_entry_has_cause : forall c ops h p e,
+  lookup (h, p) (bl (fst (run c init ops))) = Some e ->
+  exists ops1 o ops2,
+    ops = ops1 ++ o :: ops2 /\ blacklists_key o p h = true /\ c_nobl c = false /\
+    blacklisted (fst (run c init ops1)) (h, p) = false /\
+    forallb (fun o => negb (clears_hash o h)) ops2 = true /\
+    e = now (fst (run c init ops1)) + c_dur c.
+Proof.
+  intros c ops h p. induction ops as [|o t IH] using rev_ind; intros e L; [discriminate|].
+  rewrite run_snoc_fst in L.
+  destruct (bl_step c (fst (run c init t)) o h p) as [[_ E]|[Hc [E|(Hk & Hn & Hb & E)]]].
+  - rewrite E in L. discriminate.
+  - rewrite E in L. destruct (IH e L) as (ops1 & o1 & ops2 & -> & Hk & Hn & Hb & Hall & He).
+    exists ops1, o1, (ops2 ++ [o]). rewrite <- app_assoc. cbn [app]. repeat split; try assumption.
+    rewrite forallb_app, Hall. cbn [forallb]. rewrite Hc. reflexivity.
+  - rewrite E in L. inversion L; subst. exists t, o, []. repeat split; assumption.
+Qed.
+
+Lemma blacklisted_has_cause : forall c ops h p,
+  let s3 := fst (run c init ops) in
+  blacklisted s3 (h, p) = true ->
+  exists ops1 o ops2,
+    ops = ops1 ++ o :: ops2 /\ blacklists_key o p h = true /\ c_nobl c = false /\
+    blacklisted (fst (run c init ops1)) (h, p) = false /\
+    forallb (fun o => negb (clears_hash o h)) ops2 = true /\
+    now s3 < now (fst (run c init ops1)) + c_dur c.
+Proof.
+  intros c ops h p s3 Hb. unfold blacklisted in Hb.
+  destruct (lookup (h, p) (bl s3)) as [e|] eqn:L; [|discriminate].
+  destruct (bl_entry_has_cause c ops h p e L) as (ops1 & o & ops2 & E & Hk & Hn & Hb1 & Hall & He).
+  exists ops1, o, ops2. repeat split; try assumption. apply Z.ltb_lt in Hb. lia.
 Qed.
 
 (* clearing a torrent's blacklist (ClearBlacklist, or its completion) un-blacklists all its peers *)
